@@ -213,6 +213,71 @@ pub fn run(ctx: &Ctx) -> Report {
     });
     rep.merge(r);
 
+    // ---- (a3) packets that are not commands of this library between commands that are: a zero-length
+    //      packet, a command byte it does not know (COM_RESET_CONNECTION, COM_STMT_RESET, COM_SET_OPTION),
+    //      under ids chosen so that a counter left over from the exchange before would show. The
+    //      unchanged library ends the connection there; one that answers instead numbers its answer
+    //      after the packet it answers
+    let n = if ctx.miri { 2 } else { ctx.n(600, 10_000) };
+    let r = par_cases(ctx, "C05", "packets-that-are-not-commands", n, |rng, i, rep| {
+        let cols = vec![simple_col("a", ColumnType::MYSQL_TYPE_LONG)];
+        let mut cmds = Vec::new();
+        let mut scripts = Vec::new();
+        for k in 0..rng.below(3) {
+            match rng.below(2) {
+                0 => cmds.push(Cmd::ping().seq(rng.below(256) as u8)),
+                _ => {
+                    cmds.push(Cmd::query(b"q").seq(rng.below(256) as u8));
+                    let mut ops = vec![QOp::Start(0)];
+                    for r in 0..rng.below(6) {
+                        ops.push(QOp::Row(vec![Cell::val(V::I32((k * 10 + r) as i32))], RowForm::Owned));
+                    }
+                    ops.push(QOp::Finish);
+                    scripts.push(Script::Q(QProg { colsets: vec![cols.clone()], ops, on_err: OnErr::Drop }));
+                }
+            }
+        }
+        let foreign: Vec<u8> = match i % 5 {
+            0 | 1 => vec![],
+            2 => vec![0x1f],
+            3 => vec![0x1a, 1, 0, 0, 0],
+            _ => vec![0x1b, 0, 0],
+        };
+        let fid = [0u8, 17, 100, 254, 255][(i / 5 % 5) as usize];
+        let mut tail = wire::raw_packet(&foreign, fid);
+        let pid = fid.wrapping_add(rng.range(1, 200) as u8);
+        tail.extend(wire::raw_packet(&[wire::COM_PING], pid));
+        let mut case = Case::new(cmds, scripts);
+        case.raw_tail = tail;
+        let obs = run_case(&case);
+        rep.evaluations += 1;
+        rep.counters.class(format!("a packet that is not a command ({}) under id {}", if foreign.is_empty() { "zero-length".to_string() } else { format!("command byte {:#04x}", foreign[0]) }, match fid { 0 => "0", 255 => "255", 254 => "254", _ => "other" }));
+        let d = || J::obj().set("commands_before", kinds_summary(&case.cmds)).set("packet", hex(&foreign)).set("its_id", fid).set("ping_behind_it_has_id", pid).set("outcome", obs.outcome.describe());
+        if harness_panic(&obs, rep) {
+            return;
+        }
+        let out = obs.output();
+        let (pkts, used) = wire::packets_prefix(&out);
+        if used != out.len() {
+            rep.counters.inc("skipped_bad_framing");
+            return;
+        }
+        let (msgs, _) = wire::messages_prefix(&out, &pkts);
+        let dec = wire::decode_all(&obs.kinds, &msgs);
+        if dec.stop.is_some() {
+            rep.counters.inc("skipped_nonconformant");
+            return;
+        }
+        let (nchk, v) = raw_tail_reply_ids(&obs, &pkts, &msgs, &dec);
+        rep.counters.add("outbound_packets_checked", nchk);
+        if let Some(v) = v {
+            rep.violations.push(viol("C05", "C05 wrong-sequence-id".into(), v, d()));
+            return;
+        }
+        rep.counters.inc(if nchk == 0 { "packets_that_are_not_commands_left_unanswered" } else { "answers_to_packets_that_are_not_commands_checked" });
+    });
+    rep.merge(r);
+
     // ---- (b) long responses: the counter must wrap (at least twice) without stalling or repeating
     let n = if ctx.miri { 1 } else { ctx.n(24, 200) };
     let r = par_cases(ctx, "C05", "long", n, |rng, i, rep| {
